@@ -139,14 +139,32 @@ func (g *c03gen) node(depth int, path string) gen.Node {
 		if strings.Contains(path, "/macro") {
 			return g.text(path)
 		}
-		return &gen.NPrint{X: &gen.EName{Name: c03KeywordVars[r.Intn(len(c03KeywordVars))]}, ID: g.id()}
+		kw := c03KeywordVars[r.Intn(len(c03KeywordVars))]
+		switch r.Intn(4) {
+		case 0:
+			// ... also as the target or the source of an assignment, and as a condition: inside a tag
+			return &gen.NIf{Conds: []gen.Expr{&gen.EBool{V: true}}, Bodies: [][]gen.Node{{&gen.NSet{Name: kw, X: &gen.EStr{S: "set-" + kw}, ID: g.id()}, g.text(path), &gen.NPrint{X: &gen.EName{Name: kw}, ID: g.id()}}}, ID: g.id()}
+		case 1:
+			name := "k" + g.id()
+			return &gen.NIf{Conds: []gen.Expr{&gen.EName{Name: kw}}, Bodies: [][]gen.Node{{&gen.NSet{Name: name, X: &gen.EName{Name: kw}, ID: g.id()}, g.text(path), &gen.NPrint{X: &gen.EName{Name: name}, ID: g.id()}}}, ID: g.id()}
+		}
+		return &gen.NPrint{X: &gen.EName{Name: kw}, ID: g.id()}
 	case 16:
 		// an already complete block rendered again through block(): its text must come out again, byte for byte
 		if len(g.doneBlocks) == 0 || strings.Contains(path, "/macro") {
 			return g.text(path)
 		}
 		g.sig = append(g.sig, path+":blockfn")
-		return &gen.NPrint{X: &gen.EBlockFn{Name: &gen.EStr{S: g.doneBlocks[r.Intn(len(g.doneBlocks))]}}, ID: g.id()}
+		bf := &gen.EBlockFn{Name: &gen.EStr{S: g.doneBlocks[r.Intn(len(g.doneBlocks))]}}
+		switch r.Intn(4) {
+		case 0:
+			// the text of the block as a value: assigned, with literal text between the assignment and the print
+			name := "bv" + g.id()
+			return &gen.NIf{Conds: []gen.Expr{&gen.EBool{V: true}}, Bodies: [][]gen.Node{{&gen.NSet{Name: name, X: bf, ID: g.id()}, g.text(path), &gen.NPrint{X: &gen.EName{Name: name}, ID: g.id()}}}, ID: g.id()}
+		case 1:
+			return &gen.NPrint{X: &gen.EBin{Op: "~", L: &gen.EBin{Op: "~", L: &gen.EStr{S: "<"}, R: bf}, R: &gen.EStr{S: ">"}}, ID: g.id()}
+		}
+		return &gen.NPrint{X: bf, ID: g.id()}
 	case 3:
 		lits := []gen.Expr{&gen.EStr{S: "lit"}, &gen.ENum{Text: "7"}, &gen.EStr{S: "é}"}, &gen.EStr{S: ""}, &gen.EBool{V: true}, &gen.ENull{}, &gen.EStr{S: "a b"}}
 		return &gen.NPrint{X: lits[r.Intn(len(lits))], ID: g.id()}
@@ -291,7 +309,7 @@ func (p *c03) Run(i int) (res fw.Result) {
 }
 
 func (p *c03) Rule() string {
-	return "cases: seeded structure trees whose leaves are mostly literal chunks (ASCII, 2/3/4-byte UTF-8, LF/CRLF/TAB, lone { } % #, closing delimiters }} %} #} -}} , quotes, U+2028, DEL; never forming an opening delimiter; a lone { also as the very last byte of the template) interleaved with prints of literals, prints of variables named like tag keywords (verbatim, endverbatim, if, block, ...), block() calls on completed blocks, comments (multi-line, containing {{ / {% / #), verbatim bodies (containing prints, tags, comments, unclosed quotes, lone delimiters, a nested verbatim opener) and nested inside if/elseif/else, for/else, block, set-capture (printed afterwards), filter sections (bracket filters) and macro bodies to depth 4; every 10th case is a delimiter-free text that must render to itself; odd cases are spelled without blanks inside delimiters ({%if x%}), even cases canonically. Oracle: byte-exact equality with the reference model's output. Non-trivial = >=2 chunks inside nested bodies (or a delimiter-free text); distinct = construct path and alphabet class of every chunk."
+	return "cases: seeded structure trees whose leaves are mostly literal chunks (ASCII, 2/3/4-byte UTF-8, LF/CRLF/TAB, lone { } % #, closing delimiters }} %} #} -}} , quotes, U+2028, DEL; never forming an opening delimiter; a lone { also as the very last byte of the template) interleaved with prints of literals, variables named like tag keywords (verbatim, endverbatim, if, block, ...) printed, assigned, assigned from and used as conditions, block() calls on completed blocks (printed, assigned, concatenated), comments (multi-line, containing {{ / {% / #), verbatim bodies (containing prints, tags, comments, unclosed quotes, lone delimiters, a nested verbatim opener) and nested inside if/elseif/else, for/else, block, set-capture (printed afterwards), filter sections (bracket filters) and macro bodies to depth 4; every 10th case is a delimiter-free text that must render to itself; odd cases are spelled without blanks inside delimiters ({%if x%}), even cases canonically. Oracle: byte-exact equality with the reference model's output. Non-trivial = >=2 chunks inside nested bodies (or a delimiter-free text); distinct = construct path and alphabet class of every chunk."
 }
 
 func (p *c03) Assumptions() []string {
